@@ -35,11 +35,16 @@ KeyInjective ==
   \A m1 \in NoSp, m2 \in NoSp, h1 \in NoSp, h2 \in NoSp, u1 \in Str2, u2 \in Str2 :
      KeyOf(m1, h1, u1) = KeyOf(m2, h2, u2) => (m1 = m2 /\ h1 = h2 /\ u1 = u2)
 
+(* two requests that differ in their Host and carry the same X-Forwarded-Host (x): the Host is what counts *)
+XA == [m |-> "GET", h |-> "h", u |-> "/p", x |-> "shared.example"]
+XB == [m |-> "GET", h |-> "h2", u |-> "/p", x |-> "shared.example"]
+PairsX == {<<XA, XB>>, <<XB, XA>>}
+
 VARIABLE l
 
 EmitInit ==
   /\ l = 0
-  /\ LET Q == SetToSeq(Pairs) IN ndJsonSerialize(IOEnv.OUT, [i \in 1..Len(Q) |-> [a |-> Q[i][1], b |-> Q[i][2]]])
+  /\ LET Q == SetToSeq(Pairs) \o SetToSeq(PairsX) IN ndJsonSerialize(IOEnv.OUT, [i \in 1..Len(Q) |-> [a |-> Q[i][1], b |-> Q[i][2]]])
 EmitNext == FALSE /\ l' = l
 
 (* observation: a1, b1, a2, b2 : [label, ver, contacts, echo] -- echo: the upstream's description (method host uri)
